@@ -292,6 +292,17 @@ func init() {
 		fr.i.path.events = append(fr.i.path.events, fmt.Sprintf("exit(%v)", a[0]))
 		panic(pathEnd{reason: "exit", detail: fmt.Sprint(a[0])})
 	})
+	reg("github.com/git-lfs/git-lfs/v3/tools.Indent", func(fr *frame, a []value) value {
+		if c, ok := a[0].(string); ok {
+			if c == "" {
+				return ""
+			}
+			return "\t" + strings.Replace(c, "\n", "\n\t", -1)
+		}
+		// only used to lay out messages: opaque for symbolic text
+		fr.i.ex.noteApprox("tools.Indent on symbolic text is opaque (message formatting)")
+		return fr.i.nondetInternalString("indent")
+	})
 	reg("github.com/rubyist/tracerx.Printf", nop)
 	reg("github.com/rubyist/tracerx.PerformanceSince", nop)
 	reg("github.com/rubyist/tracerx.PerformanceSinceKey", nop)
